@@ -38,10 +38,10 @@ def gen_cases(tier, seed):
     cases = []
     # ("uhf", "restricted-open"): restricted walkers (norb x n_up) with an open-shell trial, the beta block is their first n_dn columns
     combos = [("rhf", "restricted"), ("uhf", "unrestricted"), ("noci", "unrestricted"), ("ucisd", "unrestricted"), ("uhf", "cpmc"), ("ghf", "cpmc_slow"),
-              ("uhf", "restricted-open")]
+              ("uhf", "restricted-open"), ("uhf", "cpmc-tiny")]
     if not q:
         combos += [("uhf", "restricted"), ("cisd", "restricted"), ("ghf", "cpmc"), ("uhf", "cpmc_slow"), ("multislater", "unrestricted"), ("noci", "restricted-open"),
-                   ("ghf", "restricted-open")]
+                   ("ghf", "restricted-open"), ("ghf", "cpmc-tiny")]
     for (kind, p) in combos:
         for rep in range(1 if q else 4):
             cases.append({"type": "replay", "kind": kind, "prop": p, "shape": [int(rng.integers(2, 5)), int(rng.integers(1, 3)) if rep else 2, int(rng.integers(1, 3))],
@@ -79,15 +79,17 @@ def _system(case, rng, nw):
     k = hubbard.lattice_h1("chain4")
     n, na, nb, u = 4, 2, 2, 4.0
     a, b = hubbard.trial_orbitals(rng, k, na, nb, "afm")
+    # "cpmc-tiny": un-normalised trial orbitals - the absolute scale of the overlap is unphysical (here ~1e-9), ratios are what matter
+    sc = 0.0074 if p == "cpmc-tiny" else 1.0
     if case["kind"] == "ghf":
         trial = wavefunctions.ghf_cpmc(n, (na, nb))
-        wd = {"mo_coeff": jnp.array(hubbard.ghf_from_uhf(a, b, 0.6))}
+        wd = {"mo_coeff": jnp.array(sc * hubbard.ghf_from_uhf(a, b, 0.6))}
     else:
         trial = wavefunctions.uhf_cpmc(n, (na, nb))
-        wd = {"mo_coeff": [jnp.array(a), jnp.array(b)]}
+        wd = {"mo_coeff": [jnp.array(sc * a), jnp.array(sc * b)]}
     wd["rdm1"] = jnp.array([a @ a.T, b @ b.T])
     hd = {"h0": jnp.array(0.0), "h1": jnp.array([k, k]), "chol": jnp.array(hubbard.onsite_chol(n, u)), "ene0": 0.0, "u": u}
-    prop = (propagation.propagator_cpmc if p == "cpmc" else propagation.propagator_cpmc_slow)(dt=case["dt"], n_walkers=nw)
+    prop = (propagation.propagator_cpmc_slow if p == "cpmc_slow" else propagation.propagator_cpmc)(dt=case["dt"], n_walkers=nw)
     ham = hamiltonian.hamiltonian(n)
     hd = ham.build_measurement_intermediates(hd, trial, wd)
     hd = ham.build_propagation_intermediates(hd, prop, trial, wd)
@@ -166,7 +168,7 @@ def run_replay(case):
         w_before = np.asarray(pd["weights"]).copy()
         e, pd = smp.propagate_phaseless(ham, hd, prop, pd, trial, wd)
         er, pd_r = replay_call(smp, hd, prop, pd_r, trial, wd)
-        expected += smp.n_sr_blocks * smp.n_ene_blocks * smp.n_prop_steps * (2 if case["prop"] == "cpmc" else 1)
+        expected += smp.n_sr_blocks * smp.n_ene_blocks * smp.n_prop_steps * (2 if case["prop"] in ("cpmc", "cpmc-tiny") else 1)
         worst["energy"] = max(worst["energy"], abs(float(e) - er) / max(1.0, abs(er)))
         worst["weights"] = max(worst["weights"], float(np.max(np.abs(np.asarray(pd["weights"]) - np.asarray(pd_r["weights"])))))
         worst["walkers"] = max(worst["walkers"], _wmax(pd["walkers"], pd_r["walkers"]))
